@@ -14,11 +14,12 @@ Is(e) == l <= Len(Trace) /\ Ev.e = e
 Reset == Is("reset") /\ l' = l + 1 /\ hi' = Ev.i /\ level' = Ev.level /\ owner' = "none" /\ seen' = {} /\ dial' = "idle" /\ result' = "" /\ UNCHANGED bad
 OwnerEv == Is("owner") /\ l' = l + 1 /\ owner' = Ev.v /\ seen' = seen \cup {Ev.v} /\ UNCHANGED <<hi, level, dial, result, bad>>
 Dial == Is("dial") /\ l' = l + 1 /\ dial' = "trying" /\ UNCHANGED <<hi, level, owner, seen, result, bad>>
+Tgt == IF "target" \in DOMAIN Ev THEN Ev.target ELSE "X"
 Ret == /\ Is("ret") /\ l' = l + 1
        /\ dial' = IF Ev.ok THEN "done" ELSE "failed"
        /\ result' = IF Ev.ok THEN Ev.remote ELSE result
        /\ bad' = bad
-           \cup (IF Ev.ok /\ Ev.remote # "X" THEN {<<"C05", "dialing X reported success with a link to a different peer", hi, level>>} ELSE {})
+           \cup (IF Ev.ok /\ Ev.remote # Tgt THEN {<<"C05", "dialing a peer reported success with a link to a different peer", hi, level>>} ELSE {})
            \cup (IF Ev.ok /\ Ev.remote \notin seen THEN {<<"C03", "a link names an identity that never answered at the address", hi, level>>} ELSE {})
            \cup (IF level = "ctl" /\ ~Ev.ok THEN {<<"C05", "the retrying dial gave up with an error", hi, level>>} ELSE {})
        /\ UNCHANGED <<hi, level, owner, seen>>
